@@ -64,14 +64,21 @@ func (p *ProjectRunner) GetLexicographicProcessNames() ([]string, error) {
 func (p *ProjectRunner) init() {
 	p.initProcessStates()
 	p.initProcessLogs()
+	// the API may be served before Run() is called
+	p.runningProcesses = make(map[string]*Process)
+	p.doneProcesses = make(map[string]*Process)
 }
 
 func (p *ProjectRunner) Run() error {
 	p.runProcMutex.Lock()
-	p.runningProcesses = make(map[string]*Process)
+	if p.runningProcesses == nil {
+		p.runningProcesses = make(map[string]*Process)
+	}
 	p.runProcMutex.Unlock()
 	p.doneProcMutex.Lock()
-	p.doneProcesses = make(map[string]*Process)
+	if p.doneProcesses == nil {
+		p.doneProcesses = make(map[string]*Process)
+	}
 	p.doneProcMutex.Unlock()
 	runOrder := []types.ProcessConfig{}
 	err := p.project.WithProcesses([]string{}, func(process types.ProcessConfig) error {
